@@ -156,9 +156,9 @@ CHECKS = {
     "C09": (
         "stateless exhaustive enumeration of operation histories (depth 3/4) plus explicit-state "
         "BFS to fixpoint over a canonical state including implementation-hidden hook bits",
-        "All 1885 (quick) / 22621 (thorough) sequences over 12 operations (deepcopy/pickle/"
-        "torch.save of parameter and of module, to(float64), half, load_state_dict, requires_grad "
-        "toggle, simulate_fp8, unit_scale) from 12 initial (tag, depth) states are replayed on fresh "
+        "All 2955 (quick) / 41371 (thorough) sequences over 14 operations (deepcopy/pickle/"
+        "torch.save of parameter and of module - continuing with the copy or with the original -, "
+        "to(float64), half, load_state_dict, requires_grad toggle, simulate_fp8, unit_scale) from 12 initial (tag, depth) states are replayed on fresh "
         "objects and compared with a tuple reference model after every step (tags, values, dtype, "
         "requires_grad, Parameter-ness, optimizer lr scale); a BFS over (dtype, requires_grad, hook "
         "bits, transformed, holder class) reaches its fixpoint (18 states, depth 4).",
@@ -180,7 +180,7 @@ CHECKS = {
         "exhaustive enumeration of straight-line programs (depth 2/3 + deviation spines) run through "
         "simulate_format and real TorchDynamo, and through the backend on hand-built FX graphs; "
         "bit-exact comparison with a hand-quantised reference interpreter; random source owned",
-        "1.7k programs quick: every 1- and 2-instruction program over 24 instruction kinds (linear with "
+        "1.9k programs quick: every 1- and 2-instruction program over 25 instruction kinds (linear with "
         "bias positional/keyword/absent, nn.Linear, U.linear forms, attention with mask positional/"
         "keyword/causal/dropout_p=0 in F. and U. form, neutral ops), single-deviation spines, residual "
         "shapes, torch.nn-only roots, x 4 format pairs (simulate_fp8, E4M3/E5M2 nearest, reduced-srbits "
@@ -194,10 +194,11 @@ CHECKS = {
     "C16": (
         "exhaustive enumeration of well-nested block programs run through unit_scale() and real "
         "TorchDynamo, compared (float64) with a reference interpreter applying the User-Guide recipe",
-        "665 programs quick: every 1-instruction program over 31 kinds x first-instruction kinds "
+        "3.2k programs quick (650 through unit_scale + real TorchDynamo, the rest through the unit-scaling "
+        "backend on emitted FX graphs): every 1-instruction program over 34 kinds x first-instruction kinds "
         "(input, nn.Embedding, F.embedding, token+position sum) x sinks (sum, mse, cross_entropy, "
         "tensor), all 2-instruction programs over a 10-kind sub-alphabet, every single residual block "
-        "shape in both operand orders, sequential and nested residual pairs, torch.nn-only roots, "
+        "shape in both operand orders, sequential and nested residual pairs, DAGs of two towers merged by a plain add, torch.nn-only roots, "
         "user-replacement precedence: outputs and all gradients equal the recipe (1e-11), weights "
         "re-initialised to w/std, biases zero, original untouched.",
         "well-nested programs only; float64; programs exhaustive to the stated depth.",
@@ -208,7 +209,8 @@ CHECKS = {
         "x repeated calls, with invariants, a hand-composed reference and a differential oracle",
         "For 6 module families and every subset of {unit_scale, one of 4 format simulations} optionally "
         "ended by track_scales / compile: all orders, all called/not-called patterns of the "
-        "intermediate modules, 3 repeated final calls. Invariants: original state/outputs/gradients "
+        "intermediate modules, 3 repeated final calls, re-trace histories (no_grad call, another "
+        "module's TorchDynamo reset, new batch size) and every intermediate re-checked against a fresh chain prefix. Invariants: original state/outputs/gradients "
         "untouched, no gradient sent to the original, no shared storage along the chain, backend list "
         "has each transform once with unit scaling first, each backend runs once per trace, repeated "
         "calls identical; all orders and histories agree bit for bit and equal the hand-composed "
@@ -219,7 +221,8 @@ CHECKS = {
     "C18": (
         "exhaustive enumeration of programs (depth 2/3, fan-out, int/bool intermediates, in-place, "
         "multi-output) and call histories run through track_scales; independent recording interpreter",
-        "580 program/history cases quick: outputs and gradients bit-identical to the un-instrumented "
+        "1000 program/history cases quick (through track_scales + TorchDynamo and through the tracking "
+        "backend on emitted FX graphs): outputs and gradients bit-identical to the un-instrumented "
         "module; every float node's six forward and backward statistics equal those recomputed by a "
         "stock torch.fx.Interpreter (+ gradient hooks) on the graph Dynamo captured; no backward "
         "metrics without gradient (also across fwd+bwd -> fwd-only call histories on the same module); "
@@ -231,7 +234,7 @@ CHECKS = {
     "C19": (
         "enumeration of tracked graphs x pruning helper x parameter (all target subsets of size <= 2) "
         "against an independent reference pruning that predicts node list and every argument slot",
-        "60 tracked programs (list/keyword/nested tensor arguments, masks, index tensors, views, "
+        "280 tracked programs, obtained through the real API and on emitted FX graphs (list/keyword/nested tensor arguments, integer chains, masks, index tensors, views, "
         "negations, residual fan-out, multiple outputs) x {non-float, same-scale at 3 tolerances, "
         "every subset of distinct targets of size <= 2 and the full set, composition}: no exception, "
         "lint, surviving node list and order, every survivor's positional/keyword/nested arguments "
@@ -243,7 +246,8 @@ CHECKS = {
     "C20": (
         "lattice walk (default + all single-coordinate deviations) of every function, every module and "
         "all length-2 compositions, each compiled from a fresh code object and compared with eager",
-        "427 compilations quick (aot_eager; inductor added in thorough): outputs and all gradients of "
+        "450 compilations quick (aot_eager; inductor added in thorough), with call histories (cached "
+        "function called again with new values / a new batch size): outputs and all gradients of "
         "the compiled function equal eager to float64 1e-12 / float32 2e-6 / bfloat16 2e-2, for all "
         "16 functions over their hyperparameter/constraint/shape/dtype deviations, 17 module "
         "configurations x 2 dtypes, 49+ compositions; the backend is observed to receive a graph; "
